@@ -1,16 +1,214 @@
 /-
   C12 — push evaluation picks the first matching enabled rule under spec semantics.
   Property theorems only; helper lemmas live in `Lemmas/Push*.lean`.
+
+  Reading guide.
+  * Spec (`Spec/Glob.lean`, `Spec/Push.lean`): `Glob p s` (inductive glob relation), `WordMatch p s`
+    (a run between word boundaries matches the glob), `Spec.Push.getMatch` (first enabled rule in the
+    order override, content, room, sender, underride all of whose conditions hold; nothing for the
+    user's own events), `lookup` (dot-path addressing with backslash escapes).
+  * Model (`Model/Glob.lean`, `Model/FlattenedJson.lean`, `Model/Push.lean`): `matchesPattern`,
+    `matchesWord` (hand-written scanner `scanLit` / chunked regular expression `chunks`), `flatten`,
+    `Cond.applies`, `Iter.next`, `getMatch` — the Rust code branch for branch; panics are the
+    `Except.error` outcome.
+  * External code is the parameter `E : Ext`; `ExtOk E` states what is assumed of `wildmatch` (it
+    decides `Glob`) and of `regex` (`is_match` has the standard meaning `RegexMatches` of the
+    generated expression). `reference_matchers_ok` shows the assumptions are satisfiable: the small
+    Lean matchers the driver runs (and T2 compares with the real crates) satisfy them.
 -/
-import RumaModel.Lemmas.PushGlob
+import RumaModel.Lemmas.PushMatch
+import RumaModel.Lemmas.PushPath
 namespace Ruma.Props.C12
-open Ruma.Spec.Glob
+open Ruma.Push
+open Ruma.Spec.Glob (Glob WordMatch globDecide wordDecide)
 
 /-- The decision procedure `globDecide` is sound and complete for the inductive glob relation, for
 every pattern and every text. -/
 theorem globDecide_iff_Glob (p s : Text) : globDecide p s = true ↔ Glob p s :=
   Ruma.Spec.Glob.globDecide_iff_Glob p s
 
+/-- The decision procedure `wordDecide` (which answers `c12.spec.word`) is sound and complete for
+the spec's word-boundary matching `∃ i j, Glob p s[i,j) ∧ boundary s i ∧ boundary s j`. -/
+theorem wordDecide_iff_WordMatch (p s : Text) : wordDecide p s = true ↔ WordMatch p s :=
+  Ruma.Spec.Glob.wordDecide_iff_WordMatch p s
+
+/-- The hand-written scanner: for a pattern without wildcards (including the empty one),
+`matches_word` never panics and answers exactly the spec's word-boundary matching — in particular
+the "find next word and recurse" restart after a failed boundary loses no match and invents none. -/
+theorem matchesWord_literal_iff_spec (E : Ext) (p s : Text) (hlit : p.any isWild = false) :
+    ∃ b, matchesWord E p s = .ok b ∧ (b = true ↔ WordMatch p s) :=
+  matchesWord_literal E p s hlit
+
+example : ("foo bar".toList).any isWild = false := by decide
+
+/-- The wildcard path: the chunk list that `matches_word` builds from ANY pattern (escaped literals,
+`(?s:.){n}` for a run of `?`, `(?s:.){n,}` for a run containing `*`) denotes exactly the language of
+the glob, and the whole generated expression `(^|\W|\b) chunks (\b|\W|$)` — with the standard
+meaning `RegexMatches` of such an expression — matches a text iff the spec's word matching holds.
+No hypothesis about newlines is needed: the groups are built with `(?s:.)` (F13 is fixed). -/
+theorem wildcard_chunks_iff_spec (p : Text) :
+    (∀ t, ChunksMatch (chunks p) t ↔ Glob p t) ∧
+    (p ≠ [] → ∀ s, RegexMatches (chunks p) s ↔ WordMatch p s) :=
+  ⟨chunks_spec p, fun hp s => RegexMatches_chunks_iff p s hp⟩
+
+example : "a*b".toList ≠ [] := by decide
+
+/-- The edge groups of the generated expression are the spec's word boundaries:
+`(?-u:^|\W|\b)` can end at position `i` iff `boundary s i`, `(?-u:\b|\W|$)` can start at `j` iff
+`boundary s j`. -/
+theorem regex_edges_are_boundaries (s : Text) (k : Nat) (hk : k ≤ s.length) :
+    (startEdge s k = true ↔ Ruma.Spec.Glob.boundary s k) ∧
+    (endEdge s k = true ↔ Ruma.Spec.Glob.boundary s k) :=
+  ⟨startEdge_iff s k hk, endEdge_iff s k hk⟩
+
+/-- `matches_pattern` never panics and is the spec's case-insensitive matching, for every value and
+pattern: word-boundary matching if `match_words`, whole-value glob matching otherwise (given the
+assumptions about `wildmatch` and `regex`). -/
+theorem matchesPattern_iff_spec (E : Ext) (hE : ExtOk E) (value pattern : Text) (matchWords : Bool) :
+    ∃ b, matchesPattern E value pattern matchWords = .ok b ∧
+      (b = true ↔ if matchWords then Ruma.Spec.Glob.wordMatches E.lower pattern value
+                  else Ruma.Spec.Glob.valueMatches E.lower pattern value) := by
+  refine ⟨_, matchesPattern_spec E hE value pattern matchWords, ?_⟩
+  cases matchWords
+  · simp only [Bool.false_eq_true, if_false, Ruma.Spec.Glob.valueDecide, Ruma.Spec.Glob.valueMatches]
+    exact Ruma.Spec.Glob.globDecide_iff_Glob _ _
+  · simp only [if_true, Ruma.Spec.Glob.wordMatchDecide, Ruma.Spec.Glob.wordMatches]
+    exact Ruma.Spec.Glob.wordDecide_iff_WordMatch _ _
+
+/-- The assumptions `ExtOk` are satisfiable: the reference matchers of the driver (`globDecide` for
+`wildmatch`, `rxDecide` for the generated regular expression) satisfy them, for any `lower` and
+`isUserId`. -/
+theorem reference_matchers_ok (lower : Text → Text) (isUserId : Text → Bool) :
+    ExtOk { lower := lower, wild := globDecide, rxMatch := rxDecide, isUserId := isUserId } :=
+  refExt_ok lower isUserId
+
+/-- A concrete instance of the external functions satisfying `ExtOk` (hypothesis of the theorems
+below), and a concrete non-trivial evaluation: a disabled override rule is skipped and the
+underride rule with a member-count condition matches somebody else's event. -/
+private def exE : Ext := { lower := id, wild := globDecide, rxMatch := rxDecide, isUserId := fun _ => true }
+private def exRule : CondRule := ⟨true, "r".toList, [.roomMemberCount ⟨.ge, 2⟩]⟩
+private def exRs : Ruleset := ⟨[⟨false, "off".toList, []⟩], [], [], [], [exRule]⟩
+private def exCtx : Ctx := ⟨"!r:h".toList, 3, "@me:h".toList, "me".toList, none⟩
+private def exEv : PJ := .obj [("sender".toList, .str "@you:h".toList)]
+
+example : ExtOk exE := reference_matchers_ok _ _
+
+example : getMatch exE exRs exEv exCtx = .ok (some (.underride exRule)) := by
+  rw [getMatch_spec exE (reference_matchers_ok _ _)]
+  rfl
+
+/-- `RoomMemberCountIs::contains` (through `RangeBounds`) is the comparison the prefix names. -/
+theorem memberCount_iff (is : MemberCountIs) (x : Nat) :
+    is.contains x = true ↔
+      match is.prefix_ with
+      | .eq => x = is.count
+      | .lt => x < is.count
+      | .gt => x > is.count
+      | .ge => x ≥ is.count
+      | .le => x ≤ is.count := by
+  rw [memberCount_eq]
+  obtain ⟨op, n⟩ := is
+  cases op <;> simp [Ruma.Spec.Push.compare]
+
+/-- `sender_notification_permission` holds iff there is a power-levels context, the event's sender
+is a user id, the key is `room`, and the sender's level (own entry, else `users_default`) is at
+least `notifications.room`. -/
+theorem notificationPermission_iff (E : Ext) (ev : FMap) (ctx : Ctx) (key : Text) :
+    senderMayNotify E ev ctx key = true ↔
+      ∃ pl sender, ctx.powerLevels = some pl ∧ ev.getStr kSender = some sender ∧
+        E.isUserId sender = true ∧ key = kRoom ∧ userLevel pl sender ≥ pl.room := by
+  unfold senderMayNotify notificationsGet
+  cases hpl : ctx.powerLevels with
+  | none => simp
+  | some pl =>
+    cases hs : ev.getStr kSender with
+    | none => simp
+    | some v =>
+      cases hu : E.isUserId v
+      · simp [hu]
+      · by_cases hk : key = kRoom
+        · simp [hu, hk]
+        · simp [hu, hk]
+
+/-- Distinct key paths (with any `.` and `\` inside keys, empty keys included) have distinct
+escaped property paths: `pathString` is injective on non-empty key paths — `parsePath` is a left
+inverse. -/
+theorem flatten_path_injective {ks ks' : List Text} (h : ks ≠ []) (h' : ks' ≠ [])
+    (heq : Ruma.Spec.Push.pathString ks = Ruma.Spec.Push.pathString ks') : ks = ks' :=
+  pathString_injective h h' heq
+
+/-- `FlattenedJson::from_raw` inserts exactly the leaves of the event under their escaped property
+paths; hence `get` is the spec's dot-path lookup (`toF` = the flattened form of a leaf value), and
+`get_str` / `contains_mentions` are `lookupStr` / `hasMentions`. -/
+theorem flatten_get_eq_lookup (ev : PJ) (key : Text) :
+    (flatten ev).get key = (Ruma.Spec.Push.lookup ev key).map toF ∧
+    (flatten ev).getStr key = Ruma.Spec.Push.lookupStr ev key ∧
+    containsMentions (flatten ev) = Ruma.Spec.Push.hasMentions ev :=
+  ⟨flatten_get ev key, flatten_getStr ev key, flatten_containsMentions ev⟩
+
+/-- Main theorem. For every ruleset, event and room context, `Ruleset::get_match` never panics and
+returns the spec's match: nothing if the user sent the event themselves, otherwise the first rule —
+kinds in the order override, content, room, sender, underride, list order within a kind — that is
+enabled and all of whose conditions hold under the spec's semantics (given the assumptions about
+`wildmatch` and `regex`). -/
+theorem getMatch_first_enabled (E : Ext) (hE : ExtOk E) (rs : Ruleset) (ev : PJ) (ctx : Ctx) :
+    getMatch E rs ev ctx = .ok (Ruma.Spec.Push.getMatch (paramsOf E) rs ev ctx) :=
+  getMatch_spec E hE rs ev ctx
+
+/-- Stated outright: the returned rule `r` splits the priority-ordered rule list as
+`before ++ r :: after` with `r` holding and no rule of `before` holding. -/
+theorem getMatch_is_first (E : Ext) (hE : ExtOk E) (rs : Ruleset) (ev : PJ) (ctx : Ctx) (r : AnyRule)
+    (h : getMatch E rs ev ctx = .ok (some r)) :
+    ∃ before after, Ruma.Spec.Push.orderedRules rs = before ++ r :: after ∧
+      Ruma.Spec.Push.ruleHolds (paramsOf E) ev ctx r = true ∧
+      ∀ x ∈ before, Ruma.Spec.Push.ruleHolds (paramsOf E) ev ctx x = false := by
+  rw [getMatch_spec E hE] at h
+  simp only [Except.ok.injEq] at h
+  unfold Ruma.Spec.Push.getMatch at h
+  split at h
+  · cases h
+  · obtain ⟨hr, as, bs, hsplit, hno⟩ := List.find?_eq_some_iff_append.1 h
+    exact ⟨as, bs, hsplit, hr, fun x hx => by simpa using hno x hx⟩
+
+/-- Stated outright: an event sent by the user themselves matches nothing. -/
+theorem getMatch_self_sent (E : Ext) (hE : ExtOk E) (rs : Ruleset) (ev : PJ) (ctx : Ctx)
+    (h : Ruma.Spec.Push.lookupStr ev Ruma.Spec.Push.keySender = some ctx.userId) :
+    getMatch E rs ev ctx = .ok none := by
+  rw [getMatch_spec E hE]
+  simp [Ruma.Spec.Push.getMatch, Ruma.Spec.Push.sentBySelf, h]
+
+/-- Stated outright: a disabled rule is never returned. -/
+theorem getMatch_never_disabled (E : Ext) (hE : ExtOk E) (rs : Ruleset) (ev : PJ) (ctx : Ctx)
+    (r : AnyRule) (h : getMatch E rs ev ctx = .ok (some r)) : Ruma.Spec.Push.enabled r = true := by
+  obtain ⟨_, _, _, hr, _⟩ := getMatch_is_first E hE rs ev ctx r h
+  unfold Ruma.Spec.Push.ruleHolds at hr
+  simp only [Bool.and_eq_true] at hr
+  exact hr.1.1
+
+/-- Stated outright: if nothing is returned for somebody else's event, no rule holds. -/
+theorem getMatch_none (E : Ext) (hE : ExtOk E) (rs : Ruleset) (ev : PJ) (ctx : Ctx)
+    (hother : Ruma.Spec.Push.sentBySelf ev ctx = false) (h : getMatch E rs ev ctx = .ok none) :
+    ∀ r ∈ Ruma.Spec.Push.orderedRules rs, Ruma.Spec.Push.ruleHolds (paramsOf E) ev ctx r = false := by
+  rw [getMatch_spec E hE] at h
+  simp only [Except.ok.injEq, Ruma.Spec.Push.getMatch, hother, Bool.false_eq_true, if_false] at h
+  intro r hr
+  simpa using List.find?_eq_none.1 h r hr
+
 end Ruma.Props.C12
 
 #print axioms Ruma.Props.C12.globDecide_iff_Glob
+#print axioms Ruma.Props.C12.wordDecide_iff_WordMatch
+#print axioms Ruma.Props.C12.matchesWord_literal_iff_spec
+#print axioms Ruma.Props.C12.wildcard_chunks_iff_spec
+#print axioms Ruma.Props.C12.regex_edges_are_boundaries
+#print axioms Ruma.Props.C12.matchesPattern_iff_spec
+#print axioms Ruma.Props.C12.reference_matchers_ok
+#print axioms Ruma.Props.C12.memberCount_iff
+#print axioms Ruma.Props.C12.notificationPermission_iff
+#print axioms Ruma.Props.C12.flatten_path_injective
+#print axioms Ruma.Props.C12.flatten_get_eq_lookup
+#print axioms Ruma.Props.C12.getMatch_first_enabled
+#print axioms Ruma.Props.C12.getMatch_is_first
+#print axioms Ruma.Props.C12.getMatch_self_sent
+#print axioms Ruma.Props.C12.getMatch_never_disabled
+#print axioms Ruma.Props.C12.getMatch_none
